@@ -58,9 +58,13 @@ class C06(EgSpec):
                     out.append(('violation', 'cost-mismatch', 'cost function %d: the recomputed cost of the term extracted for %s differs from the reported best cost %s' % (k, t, cost), {})); return out
                 if b != 'true':
                     out.append(('violation', 'not-member', 'cost function %d: the term extracted for %s is not represented in that invocation (lookup fails or gives an unequal invocation)' % (k, t), {})); return out
+                if len(h) > 5 and h[5] == 'false':
+                    out.append(('violation', 'free-function', 'the free functions extract::<AstSize> / ast_size_extract return for %s a term that is not represented in the queried invocation, or not of the best cost %s, or with a foreign free slot' % (t, cost), {})); return out
                 if c != 'true':
                     out.append(('violation', 'foreign-slot', 'cost function %d: the term extracted for %s has a free slot that is neither an argument of the query nor a brand-new slot generated by this extraction' % (k, t), {})); return out
-        if model_obs is not None and impl_obs.strip() != model_obs.strip():
+        def core_obs(p):    # the observation without the implementation-only sixth field of the h records (free-function check)
+            return core.sx_show([[x[:5] if isinstance(x, list) and x and x[0] == 'h' else x for x in e] if isinstance(e, list) and e and e[0] == 'cf' else e for e in p]) if isinstance(p, list) else core.sx_show(p)
+        if model_obs is not None and core_obs(pi) != core_obs(core.sx_parse(model_obs)):
             # best costs are the compared observable; decide whether the implementation is above or below the model's minimum
             pm = core.sx_parse(model_obs)
             why = 'best costs differ from the extractor model'
